@@ -2,7 +2,7 @@
 real code and validated, which TLC-generated vectors are replayed. See DESIGN.md section 6."""
 import os
 
-from vlib import model_check, record_and_validate, gen_and_replay, mkcfg, build_cli, gen_record_validate, proof_check
+from vlib import model_check, record_and_validate, gen_and_replay, mkcfg, build_cli, gen_record_validate, proof_check, ToolError
 
 
 TH = int(os.environ.get("VERIF_THOROUGH_SCALE", "5"))     # thorough tier: this many times the base number of recorded traces
@@ -413,6 +413,26 @@ def C14(ctx):
     n = 4 if ctx.quick else 30 * TH
     record_and_validate(ctx, [("orders_%d" % i, ["record", "orders", "--seed", ctx.seed * 1000 + i, "--segments", 80 if ctx.quick else 150,
                                                  "--nmax", 4 + (i % 3)]) for i in range(n)], "TraceOrders", "TraceOrders.cfg")
+    beyond_structures(ctx)
+
+
+def beyond_structures(ctx):
+    """Specification coverage beyond the listed properties (never an alarm, never a tool error of the owning check): util/hypergraph.rs
+    as a state machine (Hypergraph.tla: insert_edge / cut_vertex / covers / widths / cut edges; the one-pass cover fold as coded equals the
+    connected components), util/btree.rs (BTrees.tla: in-order / breadth-first iterators, index maps, Euler-tour LCA as coded = deepest
+    common ancestor), VarOrder's read-only queries and WmcParams; recorded from the real code and validated against TraceExtras.tla."""
+    try:
+        model_check(ctx, "MC_Hypergraph", "MC_Hypergraph.cfg" if ctx.quick else "MC_Hypergraph_5.cfg",
+                    "Hypergraph: every insert_edge / cut_vertex history over 4 vertices: covers partition the edges, fold as coded = components",
+                    workers=4, timeout=900, beyond=True)
+        model_check(ctx, "MC_BTrees", "MC_BTrees.cfg" if ctx.quick else "MC_BTrees_15.cfg",
+                    "BTrees: queue-based BFS = order by depth then left-to-right; index maps inverse; Euler-tour range-minimum LCA = deepest common ancestor, all trees",
+                    workers=1, timeout=900, beyond=True)
+        n = 2 if ctx.quick else 6 * TH
+        record_and_validate(ctx, [("extras_%d" % i, ["record", "extras", "--seed", ctx.seed * 1000 + i, "--segments", 40 if ctx.quick else 120,
+                                                     "--nmax", 5 + (i % 3)]) for i in range(n)], "TraceExtras", "TraceExtras.cfg", beyond=True)
+    except ToolError as ex:
+        ctx.deviations.append("beyond-list machinery did not complete: %s" % str(ex)[:300])
 
 
 def C13(ctx):
